@@ -231,13 +231,13 @@ theorem lockstep_cg_mpi_amg {S T : Type} (aprm : Amg.Params) (dsm : DSmoother K 
                         Pd := fun g => (dapply aprm dsm direct (d :: dls) dscr g).1 }
     let P : Vec K → Vec K :=
       fun g => (Amg.apply aprm sm direct (gatherLevels gs (d :: dls)) (dscr.map gatherScratch) g).1
-    ∃ ds', drun C prm.maxiter (Lockstep.CG.prog prm sqrt eps) (distribute d.part (Lockstep.CG.initState ws f x0)) = some ds' ∧
+    ∃ ds', drun C (Lockstep.CG.prog prm sqrt eps) (distribute d.part (Lockstep.CG.initState ws f x0)) = some ds' ∧
       ds'.vec Lockstep.CG.vX
         = splitVec (Solver.CG.run prm (innerProductSerial conj) sqrt eps (assemble dA d.part) P ws f x0).x d.part ∧
       ∃ (n : Nat) (res : K),
         (Solver.CG.run prm (innerProductSerial conj) sqrt eps (assemble dA d.part) P ws f x0).out = .ok (n, res) ∧
         ∀ r, r < d.part.length →
-          renv ds'.scal r Lockstep.CG.sOut = res ∧ renv ds'.scal r Lockstep.CG.sCnt = (n : K) :=
+          ds'.scal r Lockstep.CG.sOut = res ∧ ds'.scal r Lockstep.CG.sCnt = (n : K) :=
   lockstep_cg_refines_serial _ _ _ (mpi_amg_setup aprm dsm sm gs direct hsm d dls hOK dA hdA hnp dscr hscr conj)
     prm sqrt eps ws f x0 hf hx hr hs hp hq
 
